@@ -74,7 +74,11 @@ impl<'a> Pratt<'a> {
 
     /// parse an expression made of operators whose level is strictly below `limit`
     fn expr(&mut self, limit: u32) -> Result<Sx, String> {
-        let mut left = self.nud()?;
+        // the comma is an optional binary operator: `(,)`, `(1,)`, `(,1)`
+        let mut left: Option<Sx> = match self.peek() {
+            Some(Tok::Op(o)) if o.def == "CommaList" => None,
+            _ => Some(self.nud()?),
+        };
         loop {
             let op = match self.peek() {
                 Some(Tok::Op(o)) => *o,
@@ -87,19 +91,42 @@ impl<'a> Pratt<'a> {
                         break;
                     }
                     self.pos += 1;
-                    left = Sx::node(op.def, Some(left), None);
+                    left = Some(Sx::node(op.def, Some(left.ok_or("suffix without operand")?), None));
                 }
                 Fix::BinL | Fix::BinR => {
                     if op.level >= limit {
                         break;
                     }
                     self.pos += 1;
+                    if op.def == "CommaList" {
+                        let right_missing = match self.peek() {
+                            None | Some(Tok::Close(_)) => true,
+                            Some(Tok::Op(o)) => matches!(o.fix, Fix::BinL | Fix::BinR | Fix::Suffix),
+                            _ => false,
+                        };
+                        let right = if right_missing { None } else { Some(self.expr(op.level)?) };
+                        left = Some(Sx::node(op.def, left, right));
+                        continue;
+                    }
+                    let l = left.ok_or("binary operator without left operand")?;
                     let right = if op.fix == Fix::BinL { self.expr(op.level)? } else { self.expr(op.level + 1)? };
-                    left = Sx::node(op.def, Some(left), Some(right));
+                    left = Some(Sx::node(op.def, Some(l), Some(right)));
                 }
             }
         }
-        Ok(left)
+        left.ok_or_else(|| "operand expected".to_string())
+    }
+
+    fn side_effect(&mut self) -> Result<Sx, String> {
+        self.pos += 1; // [
+        let body = self.expr(TOP)?;
+        match self.peek() {
+            Some(Tok::Close(']')) => {
+                self.pos += 1;
+                Ok(Sx::node("SideEffect", None, Some(body)))
+            }
+            _ => Err("unclosed side effect".into()),
+        }
     }
 
     fn nud(&mut self) -> Result<Sx, String> {
@@ -107,7 +134,24 @@ impl<'a> Pratt<'a> {
             None => Err("operand expected at end".into()),
             Some(Tok::Atom(d, t)) => {
                 self.pos += 1;
+                // a side-effect block directly after a value is its right child
+                if let Some(Tok::Open('[')) = self.peek() {
+                    let se = self.side_effect()?;
+                    return Ok(Sx::ValNode(d.to_string(), t.clone(), None, Some(Box::new(se))));
+                }
                 Ok(Sx::leaf(d, t))
+            }
+            Some(Tok::Open('[')) => {
+                // a side-effect block before a value is its left child
+                let se = self.side_effect()?;
+                match self.peek() {
+                    Some(Tok::Atom(d, t)) => {
+                        self.pos += 1;
+                        let right = if let Some(Tok::Open('[')) = self.peek() { Some(Box::new(self.side_effect()?)) } else { None };
+                        Ok(Sx::ValNode(d.to_string(), t.clone(), Some(Box::new(se)), right))
+                    }
+                    _ => Err("side effect not followed by a value".into()),
+                }
             }
             Some(Tok::Op(o)) if o.fix == Fix::Prefix => {
                 self.pos += 1;
@@ -185,4 +229,110 @@ pub fn compose_grouped(ops: &[&'static OpInfo], atoms: &[(&'static str, &str)], 
         push_atom(&mut toks);
     }
     Some(toks)
+}
+
+/// Convert source text to abstract tokens using the real lexer's token boundaries and the reference reading of layout:
+/// white space between something that can end an operand and something that can start one is the space-list operator;
+/// inside `( )` a blank line or `;` counts as white space; annotations are dropped.
+pub fn tokens_from_text(text: &str) -> Result<Vec<Tok>, String> {
+    use crate::model::optable;
+    use garnish_lang_compiler::lex::{TokenType as T, lex};
+    let lexed = lex(text).map_err(|e| e.get_message().clone())?;
+    #[derive(Clone, Copy, PartialEq)]
+    enum K {
+        EndsOperand,
+        StartsOperand,
+        Both,
+        Neither,
+    }
+    let mut out: Vec<Tok> = vec![];
+    let mut kinds: Vec<K> = vec![];
+    let mut pending_ws = false;
+    let mut brackets: Vec<char> = vec![];
+    let push = |out: &mut Vec<Tok>, kinds: &mut Vec<K>, pending_ws: &mut bool, tok: Tok, k: K| {
+        if *pending_ws {
+            if let Some(prev) = kinds.last() {
+                if matches!(prev, K::EndsOperand | K::Both) && matches!(k, K::StartsOperand | K::Both) {
+                    out.push(Tok::Op(optable::find(" ").unwrap()));
+                    kinds.push(K::Neither);
+                }
+            }
+        }
+        *pending_ws = false;
+        out.push(tok);
+        kinds.push(k);
+    };
+    for t in &lexed {
+        let text = t.get_text().as_str();
+        match t.get_token_type() {
+            T::Whitespace => pending_ws = true,
+            T::Annotation | T::LineAnnotation => {}
+            T::Subexpression | T::ExpressionSeparator => {
+                if brackets.last() == Some(&'(') {
+                    pending_ws = true;
+                } else {
+                    let op = if t.get_token_type() == T::Subexpression { "\n\n" } else { ";" };
+                    // redundant separators (leading, doubled, after an opener) are dropped
+                    let prev_ok = matches!(kinds.last(), Some(K::EndsOperand | K::Both));
+                    if prev_ok {
+                        pending_ws = false;
+                        out.push(Tok::Op(optable::find(op).unwrap()));
+                        kinds.push(K::Neither);
+                    }
+                }
+            }
+            T::StartGroup | T::StartExpression | T::StartSideEffect => {
+                let c = text.chars().next().unwrap();
+                brackets.push(c);
+                let k = if c == '[' { K::Neither } else { K::StartsOperand };
+                push(&mut out, &mut kinds, &mut pending_ws, Tok::Open(c), k);
+            }
+            T::EndGroup | T::EndExpression | T::EndSideEffect => {
+                brackets.pop();
+                // a trailing separator before a closer is redundant
+                if let Some(Tok::Op(o)) = out.last() {
+                    if o.text == "\n\n" || o.text == ";" {
+                        out.pop();
+                        kinds.pop();
+                    }
+                }
+                pending_ws = false;
+                let c = text.chars().next().unwrap();
+                out.push(Tok::Close(c));
+                kinds.push(if c == ']' { K::Neither } else { K::EndsOperand });
+            }
+            T::Number => push(&mut out, &mut kinds, &mut pending_ws, Tok::Atom("Number", text.to_string()), K::Both),
+            T::CharList => push(&mut out, &mut kinds, &mut pending_ws, Tok::Atom("CharList", text.to_string()), K::Both),
+            T::ByteList => push(&mut out, &mut kinds, &mut pending_ws, Tok::Atom("ByteList", text.to_string()), K::Both),
+            T::Symbol => push(&mut out, &mut kinds, &mut pending_ws, Tok::Atom("Symbol", text.to_string()), K::Both),
+            T::Identifier => push(&mut out, &mut kinds, &mut pending_ws, Tok::Atom("Identifier", text.to_string()), K::Both),
+            T::UnitLiteral => push(&mut out, &mut kinds, &mut pending_ws, Tok::Atom("Unit", text.to_string()), K::Both),
+            T::True => push(&mut out, &mut kinds, &mut pending_ws, Tok::Atom("True", text.to_string()), K::Both),
+            T::False => push(&mut out, &mut kinds, &mut pending_ws, Tok::Atom("False", text.to_string()), K::Both),
+            T::Value => push(&mut out, &mut kinds, &mut pending_ws, Tok::Atom("Value", text.to_string()), K::Both),
+            T::PrefixIdentifier | T::SuffixIdentifier | T::InfixIdentifier | T::ExpressionTerminator | T::Unknown => return Err(format!("token {:?} outside the reference grammar", t.get_token_type())),
+            _ => {
+                let op = optable::find(text).ok_or_else(|| format!("operator {:?} not in the table", text))?;
+                let k = match op.fix {
+                    optable::Fix::Prefix => K::StartsOperand,
+                    optable::Fix::Suffix => K::EndsOperand,
+                    _ => K::Neither,
+                };
+                // a suffix operator does not take the list operator before it, a prefix operator may
+                if op.fix == optable::Fix::Suffix {
+                    pending_ws = false;
+                }
+                push(&mut out, &mut kinds, &mut pending_ws, Tok::Op(op), k);
+            }
+        }
+    }
+    // trailing separators are redundant
+    while let Some(Tok::Op(o)) = out.last() {
+        if o.text == "\n\n" || o.text == ";" {
+            out.pop();
+        } else {
+            break;
+        }
+    }
+    Ok(out)
 }
